@@ -87,6 +87,8 @@ type replica struct {
 	name string
 	dir  string
 	repo *repository.GoGitRepo
+	// the clock files have existed at some point (a clock that never existed is created on demand with value 1)
+	hadEdit, hadCreate bool
 }
 
 type World struct {
@@ -282,12 +284,25 @@ func (w *World) clocks(r *replica) Clk {
 			k.C = int(c.Time())
 		}
 	}
-	// a clock that does not exist yet is created on demand with value 1, also on disk
-	if k.E == -1 && k.De == -1 {
+	if k.De >= 0 {
+		r.hadEdit = true
+	}
+	if k.Dc >= 0 {
+		r.hadCreate = true
+	}
+	// a clock that never existed is created on demand with value 1, also on disk
+	if k.E == -1 && k.De == -1 && !r.hadEdit {
 		k.E, k.De = 1, 1
 	}
-	if k.C == -1 && k.Dc == -1 {
+	if k.C == -1 && k.Dc == -1 && !r.hadCreate {
 		k.C, k.Dc = 1, 1
+	}
+	// files lost and no clock object loaded: the next use starts a new clock at 1
+	if k.E == -1 && k.De == -1 && r.hadEdit {
+		k.E = 1
+	}
+	if k.C == -1 && k.Dc == -1 && r.hadCreate {
+		k.C = 1
 	}
 	return k
 }
@@ -462,7 +477,8 @@ func (w *World) Do(s Step) {
 		_ = os.Remove(filepath.Join(r.dir, ".git", "git-bug", "clocks", "bugs-edit"))
 		_ = os.Remove(filepath.Join(r.dir, ".git", "git-bug", "clocks", "bugs-create"))
 		w.project(ev, r)
-		ev.Clk.E, ev.Clk.C = -1, -1 // the process still holds its memory clocks; not observable without a hook
+		r.hadEdit, r.hadCreate = true, true
+		ev.Clk = Clk{E: -1, C: -1, De: -1, Dc: -1} // files gone; the process still holds its memory clocks (not observable without a hook)
 		w.emit(ev, r)
 	default:
 		fail("unknown step %q", s.Act)
